@@ -46,6 +46,12 @@ func directedC05(c *ctx) {
 			"</" + n + ">" + "<" + n + " />" + a + "</" + n + ">",
 			"<" + n + "//>" + a + "</" + n + ">",
 			"<" + n + " a=/>" + a + "</" + n + ">",
+			// a body that contains tags of its own, also after svg / math (foreign content for a tree builder, not for the tokenizer)
+			"<" + n + "><b>" + a + "</b>;" + b + "</" + n + ">",
+			"<svg><" + n + "><a href=x>" + a + "</a></" + n + "></svg>",
+			"<svg><" + n + "><b>" + a + "</b>;" + b + "</" + n + ">",
+			"<math><p><" + n + "><i>" + a + "</i><!-- " + b + " --></" + n + ">" + d,
+			"<SVG><title>t</title><" + n + "><b>" + a + "</b></" + n + "></SVG>",
 		}
 	}
 	for _, ops := range policies {
@@ -76,6 +82,8 @@ func directedNesting(c *ctx) {
 		{{Kind: "AA", Names: []string{"id"}, Scope: "M", ScopeRe: bmx.NewRE(`^my-`)}, {Kind: "AE", Names: []string{"iframe", "object"}}, {Kind: "AA", Empty: true, Scope: "M", ScopeRe: bmx.NewRE(`^my-el$`)}},
 		// AllowUnsafe: script/style are ordinary elements, also inside skipped ones
 		{{Kind: "UN", Flag: true}, {Kind: "AE", Names: []string{"script", "b"}}, {Kind: "AA", Names: []string{"href"}, Scope: "E", ScopeEl: []string{"a"}}},
+		// names outside ASCII in the skip-content set (x-café is one of the kinds)
+		{{Kind: "AE", Names: []string{"b", "span"}}, {Kind: "SK", Names: []string{"x-caf\u00e9", "u", "X-CAF\u00c9"}}, {Kind: "AA", Names: []string{"href"}, Scope: "E", ScopeEl: []string{"a"}}},
 		// an element of the skip-content set that is allowed (with attributes, or by a pattern), inside disallowed skip-content elements
 		{{Kind: "AE", Names: []string{"b"}}, {Kind: "AA", Names: []string{"data"}, Scope: "E", ScopeEl: []string{"object"}}, {Kind: "SK", Names: []string{"u", "my-el"}},
 			{Kind: "AEM", Re: bmx.NewRE(`^my-`)}, {Kind: "AA", Names: []string{"href"}, Scope: "E", ScopeEl: []string{"a"}}},
@@ -145,6 +153,94 @@ func directedNesting(c *ctx) {
 		}
 	}
 	families["san"](c)
+}
+
+// C01: raw-text / RCDATA elements that the policy allows, with bodies that look like markup,
+// after svg / math start tags (where a tree builder, but not the tokenizer, is in foreign
+// content), with and without comments allowed
+func directedC01(c *ctx) {
+	raws := []string{"title", "textarea", "xmp", "noscript", "iframe", "noembed", "noframes", "plaintext"}
+	pres := []string{"", "<svg>", "<svg><p>", "<math>", "<svg></svg>", "<svg><foreignObject>", "<MATH><mi>", "<svg><svg></svg>"}
+	policies := [][]*bmx.Op{
+		{{Kind: "AE", Names: append([]string{"svg", "math", "p", "b"}, raws...)}, {Kind: "AC"}},
+		{{Kind: "AE", Names: append([]string{"svg", "math", "p"}, raws[:4]...)}},
+		{{Kind: "AE", Names: []string{"p", "b", "title", "textarea"}}, {Kind: "AC"}, {Kind: "SP", Flag: true}},
+		{{Kind: "AEM", Re: bmx.NewRE(`^(svg|math|title|xmp|noscript|p)$`)}, {Kind: "AC"}, {Kind: "AK", Names: []string{"iframe", "noembed"}}},
+	}
+	for _, ops := range policies {
+		pid, pol := c.policy(ops)
+		for _, pre := range pres {
+			for _, r := range raws {
+				for _, body := range []string{"<!-- </" + r + "><img src=x onerror=alert(1)> -->", "<b>x</b>", "<img src=x onerror=alert(1)>", "<!-- c -->",
+					"</" + r + " ><img src=x>", "<script>alert(1)</script>", "<!--><img src=x>-->", "<!-- --!><img src=x>", "&lt;img src=x&gt;"} {
+					c.san(pid, pol, []byte(pre+"<"+r+">"+body+"</"+r+">t"))
+				}
+			}
+		}
+	}
+	families["san"](c)
+}
+
+// policies are values (C13, C17): building and extending other policies — from every shipped
+// constructor, through every table a builder call can write, in both orders — must not change
+// what a finished policy does.  One `indep` line per (finished policy, probe, extension).
+func independence(c *ctx) {
+	probes := []string{"<a>bare</a><a href=\"http://x/\">l</a><span>s</span>", "<title>T</title><noscript>N</noscript><button>B</button>k",
+		"<iframe>I</iframe><object>O</object>t<x-foo>f</x-foo>", "<b>x</b><x-a id=\"1\">y</x-a><p style=\"color: red\">p</p>",
+		"<script>s</script><style>t</style>u<img src=\"data:text/html;base64,PHNjcmlwdD4=\">", "<del cite=\"ftp://x/\">d</del><a href=\"ftp://x/\">f</a>"}
+	type victim struct {
+		pid int
+		pol *bluemonday.Policy
+	}
+	var victims []victim
+	for _, name := range []string{"@UGC", "@STRICT"} {
+		pid, pol := c.shipped(name)
+		victims = append(victims, victim{pid, pol})
+	}
+	for _, ops := range [][]*bmx.Op{
+		{{Kind: "AE", Names: []string{"a", "b", "span"}}, {Kind: "AA", Names: []string{"href"}, Scope: "E", ScopeEl: []string{"a"}}},
+		{{Kind: "AE", Names: []string{"p", "title"}}, {Kind: "AS", Names: []string{"color"}, Scope: "G"}, {Kind: "AK", Names: []string{"title"}}},
+	} {
+		pid, pol := c.policy(ops)
+		victims = append(victims, victim{pid, pol})
+	}
+	before := map[[2]int]string{}
+	for vi, v := range victims {
+		for pi, pr := range probes {
+			before[[2]int{vi, pi}] = safeSanitize(v.pol, []byte(pr))
+		}
+	}
+	ctors := []func() *bluemonday.Policy{bluemonday.NewPolicy, bluemonday.UGCPolicy, bluemonday.StrictPolicy}
+	re := bmx.NewRE(`^x-`)
+	exts := [][]*bmx.Op{
+		{{Kind: "SK", Names: []string{"x-foo", "button"}}, {Kind: "AA", Empty: true, Scope: "E", ScopeEl: []string{"a", "x-foo"}}},
+		{{Kind: "AA", Empty: true, Scope: "E", ScopeEl: []string{"x-foo"}}, {Kind: "AK", Names: []string{"iframe", "object", "noscript", "title", "script", "style", "button"}}},
+		{{Kind: "AK", Names: []string{"title", "noscript"}}, {Kind: "SK", Names: []string{"b", "span", "p"}}},
+		{{Kind: "AE", Names: []string{"title", "x-foo", "iframe"}}, {Kind: "AEM", Re: re}, {Kind: "AA", Names: []string{"id", "style"}, Scope: "G"}, {Kind: "AA", Names: []string{"id"}, Scope: "M", ScopeRe: re},
+			{Kind: "AS", Names: []string{"color", "width"}, Scope: "G"}, {Kind: "AS", Names: []string{"color"}, Scope: "E", ScopeEl: []string{"p"}}},
+		{{Kind: "US", Names: []string{"ftp", "data"}}, {Kind: "DU"}, {Kind: "UC", Names: []string{"http"}, Cb: "never"}, {Kind: "USM", Re: bmx.NewRE(`^f`)}, {Kind: "RU", Flag: true}},
+		{{Kind: "UN", Flag: true}, {Kind: "AC"}, {Kind: "SP", Flag: true}, {Kind: "NF", Flag: false}, {Kind: "TB", Flag: true}, {Kind: "PU", Flag: false}, {Kind: "DA"}},
+	}
+	for ei, ext := range exts {
+		for ci, ctor := range ctors {
+			other := ctor()
+			order := append([]*bmx.Op{}, ext...)
+			if (ei+ci)%2 == 1 {
+				for i, j := 0, len(order)-1; i < j; i, j = i+1, j-1 {
+					order[i], order[j] = order[j], order[i]
+				}
+			}
+			for _, o := range order {
+				o.Apply(other)
+			}
+			safeSanitize(other, []byte(probes[(ei+ci)%len(probes)]))
+			for vi, v := range victims {
+				for pi, pr := range probes {
+					fmt.Fprintf(c.w, "indep %d %s %s %s\n", v.pid, bmx.HexField([]byte(pr)), before[[2]int{vi, pi}], safeSanitize(v.pol, []byte(pr)))
+				}
+			}
+		}
+	}
 }
 
 // tag soup: up to three start tags (dropped for lack of attributes, kept with an attribute, not
@@ -457,6 +553,19 @@ func directedC07(c *ctx) {
 		probes := []string{"<my-card kind=\"42\">c</my-card>", "<x-card>hello</x-card>"}
 		pid, pol := c.policyStaged([][]*bmx.Op{first, later}, probes)
 		for _, d := range []string{"<my-card kind=\"42\" size=\"big\">c</my-card>", "<my-list kind=\"7\" size=\"small\">l</my-list>", "<x-card>hello</x-card>", "<my-card size=\"big\">c</my-card>"} {
+			c.san(pid, pol, []byte(d))
+		}
+	}
+	// element names outside ASCII, allowed by name and by pattern: conforming content is unchanged
+	for v := 0; v < 2; v++ {
+		ops := []*bmx.Op{{Kind: "AE", Names: []string{"x-caf\u00e9", "x-\u03c0", "b"}}, {Kind: "AA", Names: []string{"id"}, Scope: "G"},
+			{Kind: "AA", Names: []string{"lang"}, Scope: "E", ScopeEl: []string{"x-gr\u00f6\u00dfe"}}}
+		if v == 1 {
+			ops = []*bmx.Op{{Kind: "AEM", Re: bmx.NewRE(`^x-[\p{L}\p{N}-]+$`)}, {Kind: "AE", Names: []string{"b"}}, {Kind: "AA", Names: []string{"id", "lang"}, Scope: "G"}}
+		}
+		pid, pol := c.policy(ops)
+		for _, d := range []string{"<x-caf\u00e9 id=\"a\">t</x-caf\u00e9>", "<x-\u03c0>t</x-\u03c0><b>u</b>", "<b><x-caf\u00e9>n</x-caf\u00e9></b>",
+			"<x-gr\u00f6\u00dfe lang=\"de\">g</x-gr\u00f6\u00dfe>", "<x-\u03c0 id=\"p\"><x-caf\u00e9 id=\"c\">c</x-caf\u00e9></x-\u03c0>"} {
 			c.san(pid, pol, []byte(d))
 		}
 	}
